@@ -4,6 +4,7 @@ package main
 
 import (
 	"fmt"
+	"go/types"
 	"sort"
 	"strings"
 
@@ -136,14 +137,44 @@ func checkC13(R *Run) {
 			}
 			// delivery of the message: loads of the message cell that flow into the result
 			delivered := 0
+			// the message may be handed from one local variable to the next (a copy of the whole value) before it is
+			// appended: those copies are not deliveries, the variables they fill hold the message as well
+			var cells []*ssa.Alloc
 			if a, ok := msgCell.(*ssa.Alloc); ok {
+				cells = append(cells, a)
+			}
+			for i := 0; i < len(cells) && i < 8; i++ {
+				for _, r := range *cells[i].Referrers() {
+					if u, ok := r.(*ssa.UnOp); ok {
+						for _, rr := range *u.Referrers() {
+							if st, ok := rr.(*ssa.Store); ok {
+								if next, isLocal := st.Addr.(*ssa.Alloc); isLocal && next != cells[i] {
+									dup := false
+									for _, c := range cells {
+										if c == next {
+											dup = true
+										}
+									}
+									if !dup {
+										cells = append(cells, next)
+									}
+								}
+							}
+						}
+					}
+				}
+			}
+			for _, a := range cells {
 				for _, r := range *a.Referrers() {
 					if u, ok := r.(*ssa.UnOp); ok {
 						// loaded as a whole value and stored into an append's varargs
 						for _, rr := range *u.Referrers() {
-							if _, ok := rr.(*ssa.Store); ok {
+							if st, ok := rr.(*ssa.Store); ok {
+								if _, isLocal := st.Addr.(*ssa.Alloc); isLocal {
+									continue
+								}
 								delivered++
-								R.check(!refusing[u.Block()], "refuse-pm", fmt.Sprintf("%s: delivery of the message #%d", fname(fn), delivered), P.ipos(u), "only when the target does not refuse private messages", "the private message is delivered to a target that refuses private messages")
+								R.check(!refusing[st.Block()], "refuse-pm", fmt.Sprintf("%s: delivery of the message #%d", fname(fn), delivered), P.ipos(u), "only when the target does not refuse private messages", "the private message is delivered to a target that refuses private messages")
 							}
 						}
 					}
@@ -591,6 +622,21 @@ func (R *Run) ruleIDUnique() {
 			construct := fmt.Sprintf("%s: registry insert #%d", fname(fn), i+1)
 			mapField, _ := loadedField(mu.Map)
 			keySym := stripRecv(P.sym(mu.Key))
+			// a key that was chosen between alternatives beforehand (the ID found, or the zero ID when none was): only the
+			// alternatives with which the insertion can be reached count
+			if phi, isPhi := stripConv(resolveLocal(stripConv(mu.Key))).(*ssa.Phi); isPhi {
+				alts := map[string]bool{}
+				for i, e := range phi.Edges {
+					if i < len(phi.Block().Preds) && reachesViaEdge(phi.Block().Preds[i], phi.Block(), mu.Block()) {
+						alts[stripRecv(P.sym(e))] = true
+					}
+				}
+				if len(alts) == 1 {
+					for a := range alts {
+						keySym = a
+					}
+				}
+			}
 			// lookups of the same key in the same map
 			var lk *ssa.Lookup
 			cut := map[Edge]bool{}
@@ -655,7 +701,7 @@ func (R *Run) ruleIDUnique() {
 							if st.Block() != mu.Block() && !reachableFrom(st.Block(), nil)[mu.Block()] {
 								return // a write from which the insertion cannot be reached (the give-up path)
 							}
-							if stripRecv(P.sym(st.Val)) == keySym && instrDominates(st, mu) {
+							if (stripRecv(P.sym(st.Val)) == keySym || st.Val == mu.Key) && instrDominates(st, mu) {
 								given = true
 							} else {
 								given = false
@@ -695,7 +741,16 @@ func (R *Run) ruleIDUnique() {
 				continue
 			}
 			if f, _ := fieldOf(fa); f != "hotline.MemClientMgr.nextClientID" {
-				continue
+				// the counter kept in a struct type of its own that the manager holds (a type the reference tree does not have)
+				outer, isFA := fa.X.(*ssa.FieldAddr)
+				if !isFA || refTypes == nil {
+					continue
+				}
+				of, _ := fieldOf(outer)
+				it := outer.Type().Underlying().(*types.Pointer).Elem()
+				if !strings.HasPrefix(of, "hotline.MemClientMgr.") || fullTypeName(it) == "" || refTypes[fullTypeName(it)] {
+					continue
+				}
 			}
 			nCtr++
 			good := false
